@@ -507,27 +507,24 @@ fn lex_source_into_buffer<'source: 'tokens, 'tokens: 'buffer, 'buffer>(
 					{
 						iter.next();
 						location.end += 1;
-						let mut num_digits = 0;
-						let mut value = 0;
+						let mut value: u128 = 0;
+						let mut contains_digits = false;
+						let mut has_overflowed = false;
 						while let Some(&(_, y)) = iter.peek()
 						{
-							if num_digits > 128
+							if y == b'0' || y == b'1'
 							{
-								break;
-							}
-							else if y == b'0'
-							{
-								num_digits += 1;
-								value <<= 1;
-
-								iter.next();
-								location.end += 1
-							}
-							else if y == b'1'
-							{
-								num_digits += 1;
-								value <<= 1;
-								value |= 0b1;
+								contains_digits = true;
+								value = match value.checked_mul(2)
+								{
+									Some(value) => value,
+									None =>
+									{
+										has_overflowed = true;
+										0
+									}
+								};
+								value |= u128::from(y - b'0');
 
 								iter.next();
 								location.end += 1;
@@ -542,14 +539,17 @@ fn lex_source_into_buffer<'source: 'tokens, 'tokens: 'buffer, 'buffer>(
 								break;
 							}
 						}
-						if num_digits > 128
-						{
-							Err(LexingError::InvalidIntegerLength)
-						}
-						else if num_digits > 0
+						if contains_digits
 						{
 							end_of_literal = location.end;
-							Ok(value)
+							if !has_overflowed
+							{
+								Ok(value)
+							}
+							else
+							{
+								Err(LexingError::InvalidIntegerLength)
+							}
 						}
 						else
 						{
